@@ -210,8 +210,12 @@ pub fn gen_file(t: &mut Tape, fmt: Fmt, game: &str, body_stmts: usize) -> GenFil
             for e in 0..nentries {
                 let nsprites = t.below(5);
                 let mut sprites = vec![];
+                let mut next_id = 10 * e;
                 for s in 0..nsprites {
-                    let id = if t.chance(1, 4) { format!("id: {}, ", 10 * e + s + t.below(3)) } else { String::new() };
+                    // explicit ids only ever skip forwards, so no two different sprites of an entry share an id
+                    // (the reader keeps one sprite per id and warns)
+                    let id = if t.chance(1, 4) { next_id += t.below(3); format!("id: {}, ", next_id) } else { String::new() };
+                    next_id += 1;
                     sprites.push(format!("sprite{}_{}: {{{}x: {}, y: {}, w: {}, h: {}}}", e, s, id, fmt_f32(*t.pick(&[0.0f32, 1.0, 16.5])), fmt_f32(*t.pick(&[0.0f32, 32.0])), fmt_f32(*t.pick(&[512.0f32, 16.0, 1.0])), fmt_f32(*t.pick(&[480.0f32, 16.0]))));
                 }
                 let extra = if g >= Game::Th10 && t.chance(1, 3) { format!("    low_res_scale: {},\n", t.bool()) } else { String::new() };
@@ -337,4 +341,124 @@ pub fn gen_file(t: &mut Tape, fmt: Fmt, game: &str, body_stmts: usize) -> GenFil
     let _ = StrSize::Block(4);
     feats.sort(); feats.dedup();
     GenFile { fmt, game: game.to_string(), text, feats }
+}
+
+// =============================================================================
+// C03: boundary-valued files whose scripts consist of raw-blob instructions, with the requested
+// (time, opcode, blob[, mask / arg0 / difficulty]) recorded alongside.
+
+#[derive(Clone, Debug)]
+pub struct ReqInstr { pub time: i64, pub opcode: i64, pub blob: Vec<u8>, pub mask: Option<i64>, pub arg0: Option<i64> }
+
+pub const B_U16: &[i64] = &[0, 1, 2, 255, 256, 32767, 32768, 65535, 65536, 65537, 70000, 0x7fffffff];
+pub const B_U32: &[i64] = &[0, 1, 255, 65535, 65536, 0x7fffffff, 16, 512];
+pub const B_TIME: &[i64] = &[0, 1, 10, 127, 128, 255, 256, 32767, 32768, 65535, 65536, -1, -2, -32768, -32769, 2147483647, -2147483648];
+pub const B_OPCODE: &[i64] = &[0, 1, 2, 5, 127, 128, 255, 256, 300, 32767, 32768, 65534, 65535];
+pub const B_BLOBLEN: &[usize] = &[0, 4, 8, 12, 16, 248, 252, 256, 260, 65524, 65528, 65532, 65536];
+
+fn raw_script(t: &mut Tape, fmt: Fmt, timeline: bool, th06_std: bool, no_mask: bool, max_instrs: usize) -> (String, Vec<ReqInstr>) {
+    let n = t.below(max_instrs + 1);
+    let mut out = String::new();
+    let mut req = vec![];
+    let mut time: i64 = 0;
+    for _ in 0..n {
+        if t.chance(1, 3) { time = if t.chance(1, 2) { *t.pick(B_TIME) } else { t.below(200) as i64 }; out.push_str(&format!("{}:\n", time)); }
+        let opcode = if t.chance(1, 2) { *t.pick(B_OPCODE) } else { 1 + t.below(60) as i64 };
+        let len = if th06_std { 12 } else if t.chance(1, 6) { *t.pick(B_BLOBLEN) } else { 4 * t.below(5) };
+        let fill = *t.pick(&[0u8, 0xff, 0x41]);
+        let blob: Vec<u8> = (0..len).map(|i| if i < 4 { (i as u8).wrapping_add(fill) } else { fill }).collect();
+        let hex: String = blob.chunks(4).map(|c| c.iter().map(|b| format!("{:02x}", b)).collect::<String>()).collect::<Vec<_>>().join(" ");
+        let mut pseudo = vec![];
+        let mut mask = None; let mut arg0 = None;
+        if matches!(fmt, Fmt::Anm | Fmt::Ecl) && !timeline && !no_mask && t.chance(1, 3) { let m = *t.pick(&[0i64, 1, 255, 256, 65535, 65536]); mask = Some(m); pseudo.push(format!("@mask={}", m)); }
+        if timeline && t.chance(1, 2) { let a = *t.pick(&[0i64, 1, 4, -1, 32767, 32768, 65535, -32768, -32769, 65536]); arg0 = Some(a); pseudo.push(format!("@arg0={}", a)); }
+        pseudo.push(format!("@blob=\"{}\"", hex));
+        out.push_str(&format!("    ins_{}({});\n", opcode, pseudo.join(", ")));
+        req.push(ReqInstr { time, opcode, blob, mask, arg0 });
+    }
+    (out, req)
+}
+
+pub struct C03File { pub text: String, pub scripts: Vec<Vec<ReqInstr>>, pub feats: Vec<String> }
+
+/// `many`: 0 = normal sizes; otherwise the number of objects / sprites / table entries / subs to emit (count-field boundaries).
+pub fn gen_c03_file(t: &mut Tape, fmt: Fmt, game: &str, many: usize) -> C03File {
+    let g = crate::files::game_from_str(game);
+    let mut scripts = vec![];
+    let mut feats: Vec<String> = vec![];
+    let u16b = |t: &mut Tape| -> i64 { if t.chance(1, 2) { *t.pick(B_U16) } else { t.below(20) as i64 } };
+    let u32b = |t: &mut Tape| -> i64 { if t.chance(1, 2) { *t.pick(B_U32) } else { t.below(20) as i64 } };
+    let text = match fmt {
+        Fmt::Anm => {
+            let mut out = String::new();
+            let nentries = 1 + t.below(2);
+            let mut k = 0;
+            for e in 0..nentries {
+                let nsprites = if many > 0 && e == 0 { many } else { t.below(3) };
+                let sprites: Vec<String> = (0..nsprites).map(|s| format!("sprite{}: {{id: {}, x: 0.0, y: 0.0, w: 1.0, h: 1.0}}", 1000 * e + s, 1000 * e + s)).collect();
+                out.push_str(&format!("entry {{\n    path: \"a{}.png\",\n    has_data: false,\n    rt_width: {},\n    rt_height: {},\n    rt_format: {},\n    offset_x: {},\n    offset_y: {},\n    colorkey: {},\n    memory_priority: {},\n    sprites: {{{}}},\n}}\n\n",
+                    e, u32b(t), u32b(t), u32b(t), u32b(t), u32b(t), if g < Game::Th07 { u32b(t) } else { 0 }, if g < Game::Th07 { 0 } else { u32b(t) }, sprites.join(", ")));
+                for _ in 0..t.below(3) {
+                    let (body, req) = raw_script(t, fmt, false, false, fmt == Fmt::Ecl && g == Game::Th06, 5);
+                    let id = if t.chance(1, 3) { format!("{} ", *t.pick(&[0i64, 5, 65535, 65536, 0x7fffffff, -1])) } else { String::new() };
+                    out.push_str(&format!("script {}script{} {{\n{}}}\n\n", id, k, body));
+                    scripts.push(req); k += 1;
+                }
+            }
+            out
+        }
+        Fmt::Std => {
+            let old = g < Game::Th095;
+            let nobj = if many > 0 { many } else { 1 + t.below(3) };
+            let objs: Vec<String> = (0..nobj).map(|i| {
+                let quads: Vec<String> = (0..(if many > 0 { 0 } else { t.below(3) })).map(|_| format!("rect {{anm_script: {}, pos: [0.0, 0.0, 0.0], size: [1.0, 1.0]}}", u16b(t))).collect();
+                format!("        object{}: {{layer: {}, pos: [0.0, 0.0, 0.0], size: [1.0, 1.0, 1.0], quads: [{}]}}", i, u16b(t), quads.join(", "))
+            }).collect();
+            let insts: Vec<String> = (0..t.below(4)).map(|_| format!("object{} {{unknown: {}, pos: [1.0, 2.0, 3.0]}}", t.below(nobj.min(70000)), *t.pick(&[256i64, 0, 257, 65535, 65536]))).collect();
+            let head = if old { format!("    unknown: {},\n    stage_name: \"a\",\n    bgm: [{{path: \"a\", name: \"a\"}}, {{path: \"a\", name: \"a\"}}, {{path: \"a\", name: \"a\"}}, {{path: \"a\", name: \"a\"}}],\n", u32b(t)) } else { format!("    unknown: {},\n    anm_path: \"a\",\n", u32b(t)) };
+            let (body, req) = raw_script(t, fmt, false, old, false, 6);
+            scripts.push(req);
+            format!("meta {{\n{}    objects: {{\n{}\n    }},\n    instances: [{}],\n}}\n\nscript main {{\n{}}}\n", head, objs.join(",\n"), insts.join(", "), body)
+        }
+        Fmt::Msg | Fmt::End => {
+            let nscripts = 1 + t.below(3);
+            let with_flags = fmt == Fmt::Msg && g >= Game::Th09;
+            let nrefs = if many > 0 { many } else { nscripts };
+            let table: Vec<String> = (0..nrefs).map(|r| format!("        {}: {{script: \"script{}\"{}}}", r, r % nscripts, if with_flags && t.chance(1, 3) { format!(", flags: {}", u32b(t)) } else { String::new() })).collect();
+            let mut out = format!("meta {{\n    table: {{\n{}\n    }},\n}}\n\n", table.join(",\n"));
+            for i in 0..nscripts {
+                let (body, req) = raw_script(t, fmt, false, false, fmt == Fmt::Ecl && g == Game::Th06, 5);
+                out.push_str(&format!("script script{} {{\n{}}}\n\n", i, body));
+                scripts.push(req);
+            }
+            out
+        }
+        Fmt::Mission => {
+            let n = if many > 0 { many } else { 1 + t.below(3) };
+            let mut out = String::new();
+            for _ in 0..n {
+                if g == Game::Th095 { out.push_str(&format!("entry {{\n    stage: {},\n    scene: {},\n    face: {},\n    point: {},\n    text: [\"a\", \"b\", \"c\"],\n}}\n\n", u16b(t), u16b(t), u32b(t), u32b(t))); }
+                else { out.push_str(&format!("entry {{\n    stage: {},\n    scene: {},\n    player: {},\n    unknown_1: {},\n    unknown_2: {},\n    point_1: {},\n    point_2: {},\n    furigana: [[{}, {}], [0, 0], [3, 4]],\n    text: [\"a\", \"b\", \"c\", \"d\", \"e\", \"f\"],\n}}\n\n", u16b(t), u16b(t), u16b(t), u32b(t), u32b(t), u32b(t), u32b(t), u32b(t), u32b(t))); }
+            }
+            out
+        }
+        Fmt::Ecl => {
+            let ntl = match g { Game::Th06 => 1, _ => 1 + t.below(2) };
+            let nsubs = if many > 0 { many } else { 1 + t.below(3) };
+            let mut out = String::new();
+            for i in 0..ntl {
+                let (body, req) = raw_script(t, fmt, true, false, false, 4);
+                out.push_str(&format!("script timeline{} {{\n{}}}\n\n", i, body));
+                scripts.push(req);
+            }
+            for i in 0..nsubs {
+                let (body, req) = if many > 0 { (String::new(), vec![]) } else { raw_script(t, fmt, false, false, fmt == Fmt::Ecl && g == Game::Th06, 5) };
+                out.push_str(&format!("void sub{}() {{\n{}}}\n\n", i, body));
+                scripts.push(req);
+            }
+            out
+        }
+    };
+    if many > 0 { feats.push("many".into()); }
+    C03File { text, scripts, feats }
 }
